@@ -1604,9 +1604,83 @@ pub fn shrink(case: &Case, pred: &mut dyn FnMut(&Case) -> bool) -> Case {
 
 // ---------------------------------------------------------------- driver of the engine
 
+/// Statically typed trees (no boxing) whose leaves are zero-sized unit structs with `SystemData = ()`
+/// — marker / logging systems — counting their runs in statics: every leaf once per dispatch, on
+/// pools of 1, 2 and 4 threads, called from outside and from inside the pool, through `dispatch`
+/// and `run_now`. (The run-time assembled trees of this engine box their children, so node types
+/// there are never zero-sized.)
+mod zst {
+    use shred::{ParSeq, RunNow, System, World};
+    use std::sync::atomic::{AtomicU64, Ordering::SeqCst};
+    pub static RUNS: [AtomicU64; 10] = [AtomicU64::new(0), AtomicU64::new(0), AtomicU64::new(0), AtomicU64::new(0), AtomicU64::new(0), AtomicU64::new(0), AtomicU64::new(0), AtomicU64::new(0), AtomicU64::new(0), AtomicU64::new(0)];
+    pub struct Z<const K: usize>;
+    impl<'a, const K: usize> System<'a> for Z<K> {
+        type SystemData = ();
+        fn run(&mut self, _: ()) {
+            RUNS[K].fetch_add(1, SeqCst);
+        }
+    }
+    fn reset() {
+        for r in RUNS.iter() {
+            r.store(0, SeqCst);
+        }
+    }
+    fn counts(n: usize) -> Vec<u64> {
+        RUNS[..n].iter().map(|r| r.load(SeqCst)).collect()
+    }
+    /// (description, counts seen, counts expected) for every configuration that went wrong
+    pub fn check() -> (u64, Vec<String>) {
+        let mut bad = vec![];
+        let mut experiments = 0u64;
+        for threads in [1usize, 2, 4] {
+            let pool = rayon::ThreadPoolBuilder::new().num_threads(threads).build().unwrap();
+            for inside in [false, true] {
+                for via_trait in [false, true] {
+                    let w = World::empty();
+                    macro_rules! go {
+                        ($name:expr, $n:expr, $tree:expr) => {{
+                            reset();
+                            let mut ps = ParSeq::new($tree, &pool);
+                            for _ in 0..3 {
+                                let mut f = || if via_trait { RunNow::run_now(&mut ps, &w) } else { ps.dispatch(&w) };
+                                if inside {
+                                    pool.install(|| f())
+                                } else {
+                                    f()
+                                }
+                            }
+                            experiments += 1;
+                            let got = counts($n);
+                            if got != vec![3u64; $n] {
+                                bad.push(format!("{} on a pool of {} thread(s), called from {} the pool through {}: after 3 dispatches the zero-sized leaves ran {:?} times", $name, threads, if inside { "inside" } else { "outside" }, if via_trait { "RunNow::run_now" } else { "dispatch" }, got));
+                            }
+                        }};
+                    }
+                    go!("par![Z0, Z1, Z2]", 3, shred::par![Z::<0>, Z::<1>, Z::<2>,]);
+                    go!("seq![Z0, par![Z1, seq![Z2, Z3]]]", 4, shred::seq![Z::<0>, shred::par![Z::<1>, shred::seq![Z::<2>, Z::<3>,],],]);
+                    go!("par![seq![Z0, Z1], par![Z2, Z3, Z4], Z5]", 6, shred::par![shred::seq![Z::<0>, Z::<1>,], shred::par![Z::<2>, Z::<3>, Z::<4>,], Z::<5>,]);
+                    go!("seq![par![Z0, Z1], par![Z2, Z3]]", 4, shred::seq![shred::par![Z::<0>, Z::<1>,], shred::par![Z::<2>, Z::<3>,],]);
+                    go!("par![Z0]", 1, shred::par![Z::<0>,]);
+                }
+            }
+        }
+        (experiments, bad)
+    }
+}
+
 pub fn run(args: &Args, rep: &mut Report) {
     let seed = args.num("seed", 1);
     let cases = args.num("cases", 300);
+    if args.get("replay").is_none() || std::fs::read_to_string(args.str("replay", "")).map(|t| t.contains("static-zst-trees")).unwrap_or(false) {
+        let (n, bad) = zst::check();
+        rep.add("static_trees_of_zero_sized_leaves_dispatched", n);
+        if let Some(b) = bad.first() {
+            rep.violate(PROP, "impl", "", format!("{} (expected 3 each)", b), vec!["static-zst-trees".to_string()]);
+        }
+        if args.get("replay").is_some() {
+            return;
+        }
+    }
     let cfg = GenCfg { max_leaves: args.num("max-leaves", 20) as usize, reps: args.num("reps", 2) as u32, runs: args.num("runs", 2) as usize, max_setups: args.num("max-setups", 4) as usize };
     let tune = Tuning { hold_us: args.num("hold-us", 150), rdv_timeout_us: args.num("rdv-us", 300) };
     let mut drv = Drv::spawn(&args.str("driver", "/verif/lean/.lake/build/bin/driver"));
